@@ -18,11 +18,23 @@
 (*               exp (generated cases only: the acceptable interval of     *)
 (*               every output number as computed by MC_Variation),         *)
 (*               norm (generated cases only: the normalised coordinates    *)
-(*               the model evaluated)]                                     *)
+(*               computed by the specification from the user tuple, the    *)
+(*               fvar axes and the avar maps; coords = norm then: the      *)
+(*               judge evaluates the model where the specification says    *)
+(*               the instance lies), reported (the tuple instance()        *)
+(*               returned), ntol (generated: tolerance per axis of the     *)
+(*               reported tuple, C13 grants max(1, slope) units),          *)
+(*               hbox (header box of the source glyph, <<>> if empty),     *)
+(*               lsbAt0 (head.flags bit 1 of the source)]                  *)
 (*          o = [kind, pts, ends, adv, lsb, xminKnown, xmin (of the output *)
-(*               outline as drawn), on (flags / component ids unchanged)]  *)
-(*  Metric  a = [tag, base, coords, ivs, outer, inner, lo, hi]             *)
+(*               outline as drawn), on (flags / component ids unchanged),  *)
+(*               hbox (header box of the written glyph, <<>> if empty),    *)
+(*               obox (box of the written outline, components flattened by *)
+(*               the harness; <<>> if not derivable or nothing drawn)]     *)
+(*  Metric  a = [tag, present, base, coords, ivs, outer, inner, lo, hi]    *)
 (*          o = [value]                                                    *)
+(*  Static  o additionally: head (box of the written head table), ubox     *)
+(*          (union of the header boxes of the written, non-empty glyphs)   *)
 (*  Failed  a = [user, stage, generated], o = [err]                        *)
 (* Every number is judged by Variation!Within1 against the exact rational  *)
 (* value; at the default coordinates equality with the source is required. *)
@@ -49,6 +61,11 @@ Report(e, gid, kind, coords, bad) ==
 GlyphOf(e) == [pts |-> e.a.pts, ends |-> e.a.ends, kind |-> e.a.kind, ser |-> e.a.ser,
                hasShared |-> e.a.hasShared, tuples |-> e.a.tuples]
 
+Abs(x) == IF x < 0 THEN -x ELSE x
+NormReported(a) ==
+  /\ Len(a.reported) = Len(a.norm) /\ Len(a.ntol) = Len(a.norm)
+  /\ \A k \in 1 .. Len(a.norm) : Abs(a.reported[k] - a.norm[k]) <= a.ntol[k]
+
 JudgeGlyph(e) ==
   LET a == e.a
       o == e.o
@@ -58,12 +75,12 @@ JudgeGlyph(e) ==
       v == GlyphVerdict(g, a, o)
   IN IF ~judged THEN PrintT(<<"OUTSIDE", ToJson([i |-> e.i, case |-> e.case, gid |-> a.gid])>>)
      ELSE /\ Report(e, a.gid, a.kind, a.coords, v.bad)
-          \* generated cases: the tuple returned by instance() is the one the model evaluated
-          /\ IF a.norm = <<>> \/ a.norm = a.coords THEN TRUE
+          \* generated cases: the tuple returned by instance() is the one the specification computes
+          /\ IF a.norm = <<>> \/ NormReported(a) THEN TRUE
              ELSE PrintT(<<"MISMATCH", ToJson([i |-> e.i, case |-> e.case, ev |-> e.ev, clause |-> "normalized",
-                                               gid |-> a.gid, kind |-> a.kind, idx |-> 0, got |-> a.coords,
+                                               gid |-> a.gid, kind |-> a.kind, idx |-> 0, got |-> a.reported,
                                                want |-> a.norm, coords |-> a.coords, nbad |-> 1])>>)
-          /\ IF a.exp = <<>> \/ GlyphExpect(g, a) = a.exp THEN TRUE
+          /\ IF v.transportOK THEN TRUE
              ELSE PrintT(<<"MISMATCH", ToJson([i |-> e.i, case |-> e.case, ev |-> e.ev, clause |-> "transport",
                                                gid |-> a.gid, kind |-> a.kind, idx |-> 0, got |-> GlyphExpect(g, a),
                                                want |-> a.exp, coords |-> a.coords, nbad |-> 1])>>)
@@ -72,8 +89,9 @@ JudgeGlyph(e) ==
 \* ---- Metric ------------------------------------------------------------------------------
 JudgeMetric(e) ==
   LET a == e.a
-      ok == IvsJudged(a.ivs, Len(a.coords)) /\ a.outer < Len(a.ivs.subs)
-            /\ a.inner < Len(a.ivs.subs[a.outer + 1].rows)
+      ok == ~a.present
+            \/ (IvsJudged(a.ivs, Len(a.coords)) /\ a.outer < Len(a.ivs.subs)
+                /\ a.inner < Len(a.ivs.subs[a.outer + 1].rows))
   IN IF ~ok THEN PrintT(<<"OUTSIDE", ToJson([i |-> e.i, case |-> e.case, gid |-> -1])>>)
      ELSE LET v == MetricVerdict(a, e.o.value) IN
           Report(e, -1, a.tag, a.coords, v)
@@ -86,6 +104,7 @@ JudgeStatic(e) ==
              \cup (IF o.isVariable THEN {<<"is-variable", 0, <<>>, <<>>>>} ELSE {})
              \cup (IF ~o.loads THEN {<<"loads", 0, <<>>, <<>>>>} ELSE {})
              \cup (IF o.glyphs # o.srcGlyphs THEN {<<"glyph-count", 0, <<o.glyphs>>, <<o.srcGlyphs>>>>} ELSE {})
+             \cup HeadBoxBad(o.head, o.ubox)
   IN Report(e, -1, "", e.a.user, bad)
 
 \* ---- Failed ------------------------------------------------------------------------------
